@@ -39,7 +39,9 @@ type fsDB struct {
 	onWrite func(table string, idx int, before, after map[string]driver.Value)
 	// onExecEnd is called (under mu) when a write statement is done
 	onExecEnd func()
-	failNext error
+	// afterSelect is called after a SELECT has taken its rows and released the lock, before the rows are returned
+	afterSelect func(q string)
+	failNext    error
 }
 
 var fsRegistry = struct {
@@ -110,9 +112,11 @@ type fsConn struct {
 	tx bool
 }
 
-func (c *fsConn) Prepare(q string) (driver.Stmt, error) { return nil, errors.New("fakesql: Prepare unsupported") }
-func (c *fsConn) Close() error                           { return nil }
-func (c *fsConn) Begin() (driver.Tx, error)              { c.tx = true; return &fsTx{c}, nil }
+func (c *fsConn) Prepare(q string) (driver.Stmt, error) {
+	return nil, errors.New("fakesql: Prepare unsupported")
+}
+func (c *fsConn) Close() error              { return nil }
+func (c *fsConn) Begin() (driver.Tx, error) { c.tx = true; return &fsTx{c}, nil }
 func (c *fsConn) BeginTx(ctx context.Context, opts driver.TxOptions) (driver.Tx, error) {
 	return c.Begin()
 }
@@ -369,6 +373,14 @@ func (c *fsConn) record(q string, args []driver.NamedValue) []driver.Value {
 }
 
 func (c *fsConn) QueryContext(ctx context.Context, q string, args []driver.NamedValue) (driver.Rows, error) {
+	rows, err := c.queryLocked(q, args)
+	if h := c.db.afterSelect; h != nil && err == nil {
+		h(q) // the snapshot is taken, the lock released: whatever happens now happens "after the read"
+	}
+	return rows, err
+}
+
+func (c *fsConn) queryLocked(q string, args []driver.NamedValue) (driver.Rows, error) {
 	c.db.mu.Lock()
 	defer c.db.mu.Unlock()
 	vals := c.record(q, args)
